@@ -192,7 +192,14 @@ fn reschedule<'a>(sched: &'a Sched, mut st: MutexGuard<'a, State>, me: usize, wh
         let d = format!("step horizon {} exceeded (livelock?): {}", st.max_steps, describe(&st));
         return abort(st, d);
     }
-    let (enabled, cur) = enabled_of(&st, me);
+    let (mut enabled, cur) = enabled_of(&st, me);
+    // A voluntary yield (a thread waiting for others in a loop): the other threads come first, so the
+    // default continuation is to let somebody else run; carrying on with the yielding thread (or picking a
+    // particular other thread) is an alternative that costs a deviation like any other.
+    if cur && matches!(why, Why::User(_)) && enabled.len() > 1 {
+        enabled.retain(|t| *t != me);
+        enabled.push(me);
+    }
     if enabled.is_empty() {
         let all_done = st.threads.iter().all(|t| t.status == Status::Finished);
         if all_done {
